@@ -47,3 +47,4 @@ static inline vr64 vr_ceil64(vr64 a){ return vr_h(ceil(vr_d(a))); }
 static inline vr64 vr_floor64(vr64 a){ return vr_h(floor(vr_d(a))); }
 static inline vr32 vr_sqrt32(vr32 a){ return vr_hf(sqrtf(vr_f(a))); }
 static inline vr32 vr_fabs32(vr32 a){ return vr_hf(fabsf(vr_f(a))); }
+static inline int vr_is_exact_zero(vr64 a){ return vr_d(a) == 0.0; }
